@@ -206,6 +206,10 @@ type Topic struct {
 	collected *expvar.Int
 	statsKey  string
 
+	// collectMu serializes collect, so that the handlers are handed the events
+	// in the order in which they were applied to the state of the topic.
+	collectMu sync.Mutex
+
 	handlers []*bufHandler
 }
 
@@ -319,6 +323,8 @@ func (t *Topic) close() {
 }
 
 func (t *Topic) collect(event Event) error {
+	t.collectMu.Lock()
+	defer t.collectMu.Unlock()
 
 	// The previous state is the one of this topic, an event that was published
 	// from another topic must not keep that topic's previous state.
